@@ -437,7 +437,7 @@ def project(pid, t, meta):
         for k, v in t.items():
             bk = base_key(k)
             if k == "res": out[k] = cls(v) if meta["kind"] == "compound" else v
-            elif k in ("n", "after"): out[k] = v
+            elif k in ("n", "after", "adapt"): out[k] = v
             elif bk in ("res", "variant", "length", "type", "count", "version", "padding"): out[k] = v
         return out
     if pid == "C12":
@@ -452,7 +452,7 @@ def project(pid, t, meta):
     if pid == "C15":
         for k, v in t.items():
             bk = base_key(k)
-            if bk.startswith("fci.") or bk in ("entries", "rpsi"): out[k] = v
+            if bk.startswith("fci.") or bk in ("entries", "entries.adapt", "rpsi"): out[k] = v
             elif bk == "res" and meta.get("kind") in ("nack", "fir", "sli", "rpsi", "pli"): out[k] = cls(v)
             elif bk == "res": out[k] = cls(v)
         return out
